@@ -220,14 +220,15 @@ def _trace_conf_one(args):
                 todo = []
     return ("ok", accepted, rejected)
 
-def trace_conf(records, cfgrec, wd, name, timeout, max_restarts=4):
+def trace_conf(records, cfgrec, wd, name, timeout, max_restarts=4, appname=None):
     """Validate recorded streams as behaviours of Cobweb.tla. Returns (accepted ids, rejected [(id, record index)])."""
     from concurrent.futures import ThreadPoolExecutor
     consts = configs.C(NSys=len(cfgrec["kinds"]), NOnce=cfgrec.get("nonce", 0), NW=cfgrec.get("nworld", 0), NER=cfgrec.get("neworld", 0),
                        NEnt=cfgrec.get("nent", 1), Hier=cfgrec.get("hier", 0), NTy=2, NVal=2, MaxOps=0, Budget=0,
                        MaxSteps=0, StepKinds=set(), Scripted=True)
     cfg = os.path.join(wd, "TC_%s.cfg" % name)
-    tlc.write_cfg(cfg, "TCSpec", consts, constraints=["Progress"], postconditions=["Report"], subst=dict(Bundles="NoSetTC", InitOps="NoOps"))
+    tlc.write_cfg(cfg, "TCSpec", consts, constraints=["Progress"], postconditions=["Report"],
+                  subst=dict(Bundles="NoSetTC", InitOps="NoOps", AppRegs=appname or "App_None"))
     if not records:
         return [], []
     chunks = _chunks(records, PAR)
@@ -324,7 +325,7 @@ def check_property(prop, tier, seed):
         g["other_property_tags"] = sorted({v["p"] for v in viol if v["p"] != prop})
         # conformance of the random programs (the generated ones were compared record by record above)
         cfgrec = rcfg["cfg"]
-        acc, rej = trace_conf(rnd, cfgrec, wd, gname, configs.TIERS[tier]["tc_timeout"])
+        acc, rej = trace_conf(rnd, cfgrec, wd, gname, configs.TIERS[tier]["tc_timeout"], appname=group.get("subst", {}).get("AppRegs"))
         g["conf"] = dict(accepted=len(acc), rejected=len(rej), first_rejected=rej[:3])
         cov["drift"] += len(rej)
         ok_ids = set(str(i) for i in acc) | {str(r["id"]) for h, r in zip(hists, obs) if progs.first_diff(h, r["stream"]) < 0}
